@@ -153,24 +153,15 @@ func TestVerifN2NCorr(t *testing.T) {
 			// what reached which destination
 			pubAddr, nPub := -1, 0
 			var pubBody []byte
+			result := ""
 			if m.IsAutoResponseDisabled() {
-				// PublishAsync queued: wait until the PUB reached a stub, unless its connection broke first
-				deadline := time.After(3 * time.Second)
-			wait:
-				for {
-					for i, s := range stubs {
-						if s.Count() > marks[i] {
-							break wait
-						}
-					}
-					select {
-					case v := <-rec.ch: // transaction failed before reaching a stub (write error)
-						rec.ch <- v
-						break wait
-					case <-deadline:
-						break wait
-					case <-time.After(200 * time.Microsecond):
-					}
+				// PublishAsync queued: every transaction completes (OK / error frame / lost connection); the stub
+				// records the PUB before it answers, so after the response the stub counters are final
+				select {
+				case result = <-rec.ch:
+				case <-time.After(60 * time.Second):
+					fail(fmt.Sprintf("message %d: no response to a %s destination", id, verb))
+					continue
 				}
 			}
 			for i, s := range stubs {
@@ -235,13 +226,7 @@ func TestVerifN2NCorr(t *testing.T) {
 				if verb == "stall" {
 					continue
 				}
-				var resp string
-				select {
-				case resp = <-rec.ch:
-				case <-time.After(5 * time.Second):
-					fail(fmt.Sprintf("message %d: no response to a %s destination", id, verb))
-					continue
-				}
+				resp := result
 				ok := nPub == 1 && verb == "ok"
 				hist["result:"+verb+":"+strings.SplitN(resp, "(", 2)[0]]++
 				if resp == "fin" && !ok {
